@@ -24,5 +24,6 @@ def run(el, what):
     if what=='pos': s.assertFormula(mk.mkTerm(Kind.LEQ,f,mk.mkReal(0)))
     else: s.assertFormula(mk.mkTerm(Kind.LT,df,mk.mkReal(0)))
     t=time.time(); r=s.checkSat(); return str(r), round(time.time()-t,2)
-for el in ('C','O','N','CL','FE','AU','PU','H'):
+if __name__=="__main__":
+  for el in ("C","O",'N','CL','FE','AU','PU','H'):
     print(el, [ (atomlib.formfactor[el][i]) for i in (0,1,2,3,8)], run(el,'pos'), run(el,'mono'), flush=True)
